@@ -146,6 +146,32 @@ pub fn corpus(thorough: bool, seed: u64) -> Vec<Grammar> {
         G::Seq(vec![G::Sub(vec![lit("--format="), G::Alt(vec![lit("json"), lit("yaml")])]), lit("z")]),
         G::Seq(vec![G::Sub(vec![lit("--color="), G::Alt(vec![lit("always"), lit("never")])]), lit("y")]),
     ])));
+    // one within-word expression written twice with the same symbols in the same order but grouped
+    // differently, or partly through a definition: the minimal automata are structurally equal, so
+    // the two spellings must be one symbol (one reading per typed word)
+    out.push(wrap(&G::Alt(vec![
+        G::Seq(vec![G::Sub(vec![lit("--x="), G::Alt(vec![lit("a"), lit("b"), lit("c")])]), lit("f")]),
+        G::Seq(vec![G::Sub(vec![lit("--x="), G::Alt(vec![lit("a"), G::Alt(vec![lit("b"), lit("c")])])]), lit("g")]),
+    ])));
+    out.push(wrap(&G::Alt(vec![
+        G::Seq(vec![G::Sub(vec![lit("--x="), G::Alt(vec![G::Alt(vec![lit("a"), lit("b")]), lit("c")])]), lit("f")]),
+        G::Seq(vec![G::Sub(vec![lit("--x="), G::Alt(vec![lit("a"), lit("b"), lit("c")])]), lit("g")]),
+    ])));
+    {
+        let mut g = wrap(&G::Alt(vec![
+            G::Seq(vec![G::Sub(vec![lit("--color="), G::Alt(vec![lit("always"), lit("never"), lit("auto")])]), lit("f")]),
+            G::Seq(vec![G::Sub(vec![lit("--color="), G::Alt(vec![lit("always"), nt("WHEN")])]), lit("g")]),
+        ]));
+        g.stmts.push(Stmt::Def("WHEN".into(), None, G::Alt(vec![lit("never"), lit("auto")])));
+        out.push(g);
+        let mut g = wrap(&G::Alt(vec![
+            G::Seq(vec![G::Sub(vec![lit("--level="), nt("N3"), lit("%")]), lit("f")]),
+            G::Seq(vec![G::Sub(vec![lit("--level="), nt("PCT")]), lit("g")]),
+        ]));
+        g.stmts.push(Stmt::Def("N3".into(), None, G::Alt(vec![lit("1"), lit("2"), lit("3")])));
+        g.stmts.push(Stmt::Def("PCT".into(), None, G::Sub(vec![G::Alt(vec![lit("1"), lit("2"), lit("3")]), lit("%")])));
+        out.push(g);
+    }
     // a definition holding a within-word expression referenced more than once (the same regex is
     // interned once per reference), with and without a different within-word expression after it
     out.push(wrap(&G::Seq(vec![nt("O"), nt("O")])));
@@ -292,7 +318,7 @@ pub fn check_one(gr: Option<&Grammar>, text: &str, shell: &str, out: &mut Vec<Vi
     }
 
     // ---- C09: no state with two readings of one word leading to different continuations
-    c09_determinism(&min_nfa, &min_read, &nfa_nolevels(&comp.min), "main", text, shell, gr.map_or(false, |g| has_respelled_word(g, shell)), labels_are_the_grammars, out);
+    c09_determinism(&min_nfa, &min_read, &nfa_nolevels(&comp.min), "main", text, shell, gr.map_or((false, false), |g| { let r = respelled_words(g, shell); (r.reordered, r.regrouped) }), labels_are_the_grammars, out);
 
     // ---- C09: `||` behaves exactly like `|` when matching
     if let Some(gr) = gr {
@@ -357,7 +383,7 @@ fn c03_min_only(min: &complgen::dfa::DFA, which: &str, text: &str, shell: &str, 
     }
 }
 
-fn c09_determinism(n: &Nfa, readings: &Nfa, nolevels: &Nfa, which: &str, text: &str, shell: &str, respelled: bool, labels_are_the_grammars: bool, out: &mut Vec<Violation>) {
+fn c09_determinism(n: &Nfa, readings: &Nfa, nolevels: &Nfa, which: &str, text: &str, shell: &str, respelled: (bool, bool), labels_are_the_grammars: bool, out: &mut Vec<Violation>) {
     // `n` (labelled items) and `readings` (items as read when matching) have identical shape
     for (s, row) in n.trans.iter().enumerate() {
         let mut by: BTreeMap<String, BTreeSet<usize>> = BTreeMap::new();
@@ -381,7 +407,10 @@ fn c09_determinism(n: &Nfa, readings: &Nfa, nolevels: &Nfa, which: &str, text: &
                     if full.len() == 1 {
                         // even the labelled languages are identical: one expression spelled in two ways
                         // (e.g. permuted alternatives) is interned as two automata
-                        if respelled { "identical-within-word-language-spelled-differently-two-symbols" } else { "identical-within-word-expression-two-symbols" }
+                        // respelled.0: some pair meets its symbols in another order (the recorded finding D16);
+                        // respelled.1 only: same symbols in the same order, regrouped or written through a
+                        // definition -- the unchanged compiler interns those as one automaton
+                        if respelled.0 { "identical-within-word-language-spelled-differently-two-symbols" } else if respelled.1 { "identical-within-word-language-regrouped-two-symbols" } else { "identical-within-word-expression-two-symbols" }
                     } else if flat[&r].len() > 1 {
                         "same-within-word-language-different-labels"
                     } else {
